@@ -56,14 +56,12 @@ def mkReader (inp : List UInt8) (cap : Nat) (pol : Pol) (script : List ReadEv :=
 `i` is the buffer offset of the head of `rest`.  Result: (found, new `search_pos`, new `seq_pos`). -/
 def scan : List UInt8 → Nat → List Nat → Bool × Nat × List Nat
   | [], i, acc => (false, i, acc)
-  | b :: rest, i, acc =>
+  | [b], i, acc => if b = LF then (false, i, acc) else (false, i + 1, acc)
+  | b :: c :: rest, i, acc =>
     if b = LF then
-      match rest with
-      | [] => (false, i, acc)
-      | c :: _ =>
-        if c = GT then (true, i + 1, acc ++ [i])
-        else scan rest (i + 1) (acc ++ [i])
-    else scan rest (i + 1) acc
+      if c = GT then (true, i + 1, acc ++ [i])
+      else scan (c :: rest) (i + 1) (acc ++ [i])
+    else scan (c :: rest) (i + 1) acc
 
 /-- `Reader::_search` (`none` = slice index panic). -/
 def search_ (r : Reader) : Option (Reader × Bool) :=
